@@ -3,6 +3,9 @@ verbatim and generically (any nesting depth, any chunking).  Contract text only.
 from vx import Unit, Fn
 
 U = Unit("buf_core", props=["C09", "C12", "C10"])
+U.assumptions = [
+    "assumed std contracts in unit buf_core (trusted): cmp::min; io::Cursor::{position, set_position, get_ref}; VecDeque::as_slices (r.0 ++ r.1 == contents) and VecDeque::drain(..n) (removes the first n elements, requires n <= len); vstd's own specs of slices and VecDeque::len",
+]
 
 U.text(r'''
 use core::cmp;
